@@ -83,6 +83,19 @@ where
     let e2 = minicbor::to_vec(&owned).map_err(|err| Fail { sig: format!("{name}:to_owned:encode-error"), msg: err.to_string() })?;
     pv_ensure!(e2 == b, format!("{name}:to_owned:form-not-preserved"), "{name} accepted {}, after to_owned() it re-encodes as {}", hex::encode(&b), hex::encode(&e2));
     pv_ensure!(*owned == inner, format!("{name}:to_owned:inner-differs"), "to_owned() content {:?} differs from plain decode {:?}", *owned, inner);
+    // dropping the kept bytes makes the wrapper encode from its content, like a wrapper built from a value
+    let mut cleared = owned;
+    cleared.clear_raw();
+    let e3 = minicbor::to_vec(&cleared).map_err(|err| Fail { sig: format!("{name}:clear_raw:encode-error"), msg: err.to_string() })?;
+    let fresh = minicbor::to_vec(&inner).map_err(|err| Fail { sig: format!("{name}:inner-encode-error"), msg: err.to_string() })?;
+    pv_ensure!(e3 == fresh, format!("{name}:clear_raw:not-from-content"), "after clear_raw() the wrapper encodes {} but its content encodes {}", hex::encode(&e3), hex::encode(&fresh));
+    // the opaque any-CBOR wrapper built from the same bytes carries them verbatim
+    let any = pallas_codec::utils::AnyCbor::from_raw_bytes(b.clone());
+    pv_ensure!(any.raw_bytes() == &b[..], "AnyCbor:from_raw_bytes:raw-differs", "raw_bytes() {} != {}", hex::encode(any.raw_bytes()), hex::encode(&b));
+    let ea = minicbor::to_vec(&any).map_err(|err| Fail { sig: "AnyCbor:from_raw_bytes:encode-error".into(), msg: err.to_string() })?;
+    pv_ensure!(ea == b, "AnyCbor:from_raw_bytes:form-not-preserved", "AnyCbor::from_raw_bytes({}) encodes as {}", hex::encode(&b), hex::encode(&ea));
+    let back: Result<T, _> = any.into_decode();
+    pv_ensure!(matches!(&back, Ok(x) if *x == inner), "AnyCbor:into_decode:differs", "into_decode of {} gives {:?}, plain decode {:?}", hex::encode(&b), back.as_ref().ok(), inner);
     obs.nontrivial_if(nontrivial(node));
     Ok(())
 }
